@@ -167,10 +167,13 @@ class Gen:
         r = self.r
         nm = self.name("resv")
         cap = F(r.choice([20, 50, 200]))
-        d = {"name": nm, "type_": "RiverReservoir" if river_like else "Reservoir", "capacity": cap,
+        d = {"name": nm, "type_": "Reservoir", "capacity": cap,
              "area": F(10), "initial_storage": self.vq(cap * r.choice([F(0), F(1, 2), F(1)]))}
         self.decays(d)
         if river_like:
+            # the orchestration is keyed by type_: a label of its own lets the release step be orchestrated
+            d["type_"] = "RiverReservoir"
+            d["node_type_override"] = "RiverReservoir"
             d["environmental_flow"] = r.choice([F(0), F(2), F(6)])
         self.nodes.append(d)
         return nm
@@ -181,7 +184,8 @@ class Gen:
         cap = F(r.choice([30, 100, 1000]))
         d = {"name": nm, "capacity": cap, "area": F(10), "initial_storage": self.vq(cap * r.choice([F(0), F(1, 4), F(9, 10)]))}
         if queue:
-            d["type_"] = "QueueGroundwater"
+            d["type_"] = "Groundwater"           # label used by the default orchestration
+            d["node_type_override"] = "QueueGroundwater"
             d["timearea"] = r.choice([{0: F(1)}, {0: F(1, 2), 1: F(1, 2)}, {0: F(1, 2), 1: F(1, 4), 3: F(1, 4)}])
         else:
             d["type_"] = "Groundwater"
@@ -249,7 +253,7 @@ class Gen:
         load = {p: conc(self.rp) for p in adds}
         load.update({p: F(15) for p in nons})
         if residential:
-            d = {"name": nm, "type_": "ResidentialDemand", "population": F(r.choice([0, 10, 40, 100])),
+            d = {"name": nm, "type_": "Demand", "node_type_override": "ResidentialDemand", "population": F(r.choice([0, 10, 40, 100])),
                  "per_capita": r.choice([F(1, 8), F(3, 20), F(0)]), "pollutant_load": load,
                  "data_input_dict": self.data({"temperature": [temp(r) for _ in range(self.n)]})}
         else:
@@ -395,11 +399,18 @@ def gen_model(r, ndates=4, polset=None, size=None, opts=None):
                 g.arc(sw, rivers[-1], pref=F(1, 1000))
                 sws = [sw]
             g.arc(ld, sws[0], cap=r.choice([None, F(3)]))
-            if gw and r.random() < 0.5 and not any(n["name"] == gw and n["type_"] == "QueueGroundwater" for n in g.nodes):
+            if gw and r.random() < 0.5 and not any(n["name"] == gw and n.get("node_type_override") == "QueueGroundwater" for n in g.nodes):
                 g.arc(gw, sws[0])
     if opts.get("shuffle", True) and r.random() < 0.5:
         r.shuffle(g.nodes)
     cfg = {"polset": polset, "dates": g.dates, "nodes": g.nodes, "arcs": g.arcs, "size": size}
+    if any(n["type_"] == "RiverReservoir" for n in g.nodes):
+        from wsimod.orchestration.model import Model
+        orch = [dict(x) for x in Model().orchestration]
+        i = [list(x.keys())[0] + ":" + list(x.values())[0] for x in orch].index("Reservoir:make_abstractions")
+        orch.insert(i, {"RiverReservoir": "make_abstractions"})
+        orch.insert(i + 1, {"RiverReservoir": "satisfy_environmental"})
+        cfg["orchestration"] = orch
     return cfg
 
 
@@ -465,9 +476,13 @@ def cfg_json(cfg):
     return js(cfg)
 
 
+def cls_of(nd):
+    return nd.get("node_type_override", nd["type_"])
+
+
 def cfg_from_json(j):
     def fr(x, key=None):
-        if isinstance(x, str) and key not in ("name", "type_", "in_port", "out_port", "surface", "polset", "size"):
+        if isinstance(x, str) and key not in ("name", "type_", "node_type_override", "in_port", "out_port", "surface", "polset", "size"):
             try:
                 return F(x)
             except (ValueError, ZeroDivisionError):
